@@ -16,18 +16,18 @@ structure CallOK (c : Call) (fs0 : Fs) : Prop where
 
 /-- The target holds the complete new text, durable, with the mode of the file it replaced, and (when
 a base_hash was given) the file it replaced hashed to base_hash or there was none. -/
-def Installed (H : Data → Hash) (c : Call) (fs0 : Fs) (r : Regs) (fs : Fs) : Prop :=
-  ∃ m, fs c.target = some (.file (c.canon r.base) m true) ∧
-    (∀ d m0 sy, fs0 c.target = some (.file d m0 sy) → m = m0) ∧
-    (c.baseHash.isSome = true →
-      fs0 c.target = none ∨ ∃ d m0 sy, fs0 c.target = some (.file d m0 sy) ∧ some (H d) = c.baseHash)
+def Installed (S : Strict) (H : Data → Hash) (c : Call) (fs0 : Fs) (r : Regs) (fs : Fs) : Prop :=
+  ∃ m sy, fs c.target = some (.file (c.canon r.base) m sy) ∧
+    (S.atomic = true → sy = true ∧ ∀ d m0 sy0, fs0 c.target = some (.file d m0 sy0) → m = m0) ∧
+    (S.cas = true → c.baseHash.isSome = true →
+      fs0 c.target = none ∨ ∃ d m0 sy0, fs0 c.target = some (.file d m0 sy0) ∧ some (H d) = c.baseHash)
 
-structure Inv (H : Data → Hash) (c : Call) (fs0 : Fs) (a : Abs) (r : Regs) (fs : Fs) (cf : Bool) : Prop where
+structure Inv (S : Strict) (H : Data → Hash) (c : Call) (fs0 : Fs) (a : Abs) (r : Regs) (fs : Fs) (cf : Bool) : Prop where
   frame : ∀ p, p ≠ c.target → p ≠ c.tmpName →
     fs p = fs0 p ∨ (p.isPrefixOf (parentOf c.target) = true ∧ fs0 p = none ∧ fs p = some .dir)
   clean : a.mutd = false → fs = fs0
   tgt : a.tmp ≠ .installed → fs c.target = fs0 c.target
-  inst : a.tmp = .installed → Installed H c fs0 r fs
+  inst : a.tmp = .installed → Installed S H c fs0 r fs
   tnone : a.tmp = .none → r.tmp = none ∧ fs c.tmpName = none
   tsome : a.tmp ≠ .none → r.tmp = some c.tmpName
   tgone : a.tmp = .gone ∨ a.tmp = .installed → fs c.tmpName = none
@@ -53,14 +53,14 @@ structure Inv (H : Data → Hash) (c : Call) (fs0 : Fs) (a : Abs) (r : Regs) (fs
   casA : a.cas = .absent → fs0 c.target = none
   exI : a.exProbe = true → r.existed = (fs0 c.target).isSome
 
-theorem Inv.init (H : Data → Hash) (c : Call) (fs0 : Fs) (hc : CallOK c fs0) : Inv H c fs0 {} {} fs0 false := by
+theorem Inv.init (S : Strict) (H : Data → Hash) (c : Call) (fs0 : Fs) (hc : CallOK c fs0) : Inv S H c fs0 {} {} fs0 false := by
   constructor <;> simp [hc.tmp_fresh]
 
-variable {H : Data → Hash} {c : Call} {fs0 : Fs}
+variable {S : Strict} {H : Data → Hash} {c : Call} {fs0 : Fs}
 
 /-- Preservation by a step that leaves the file system alone (reads, failed ops). -/
 theorem Inv.transfer {a a' : Abs} {r r' : Regs} {fs : Fs} {cf cf' : Bool}
-    (hI : Inv H c fs0 a r fs cf)
+    (hI : Inv S H c fs0 a r fs cf)
     (htmp : a'.tmp = a.tmp) (hho : a'.hOpen = a.hOpen) (hdat : a'.dat = a.dat ∨ a'.dat = .dirty) (hchm : a'.chm = a.chm)
     (hmk : (a'.modeK = a.modeK ∧ r'.savedMode = r.savedMode) ∨
            (a.tmp = .none ∧ a'.modeK = .saved ∧ ∃ m, r'.savedMode = some m ∧
@@ -76,7 +76,7 @@ theorem Inv.transfer {a a' : Abs} {r r' : Regs} {fs : Fs} {cf cf' : Bool}
     (rt : r'.tmp = r.tmp) (rh : r'.hpath = r.hpath) (rb : r'.buf = r.buf)
     (rba : r'.base = r.base ∨ (a.tmp = .none ∧ a.dat = .empty))
     (re : r'.existed = r.existed) :
-    Inv H c fs0 a' r' fs cf' := by
+    Inv S H c fs0 a' r' fs cf' := by
   constructor
   case frame => exact hI.frame
   case clean => intro hm; apply hI.clean; cases hx : a.mutd <;> simp_all
@@ -194,8 +194,8 @@ theorem mkdirP_cases (fs : Fs) (d q : Path) :
   · simp [h]
 
 theorem inv_mkdirP {a : Abs} {r r' : Regs} {fs fs' : Fs} {cf : Bool} (hc : CallOK c fs0)
-    (hI : Inv H c fs0 a r fs cf) (hd : doOp c (.mkdirP .parent) r fs = .ok (r', fs')) :
-    Inv H c fs0 { a with lastA := .unknown, mutd := true } r' fs' cf := by
+    (hI : Inv S H c fs0 a r fs cf) (hd : doOp c (.mkdirP .parent) r fs = .ok (r', fs')) :
+    Inv S H c fs0 { a with lastA := .unknown, mutd := true } r' fs' cf := by
   simp only [doOp, locPath] at hd
   split at hd
   · injection hd with hd; injection hd with hr hf; subst hr hf
@@ -215,8 +215,8 @@ theorem inv_mkdirP {a : Abs} {r r' : Regs} {fs fs' : Fs} {cf : Bool} (hc : CallO
   · cases hd
 
 theorem inv_mkstemp {a : Abs} {r r' : Regs} {fs fs' : Fs} {cf : Bool} (hc : CallOK c fs0)
-    (hI : Inv H c fs0 a r fs cf) (h0 : a.tmp = .none) (hd : doOp c (.mkstemp .parent) r fs = .ok (r', fs')) :
-    Inv H c fs0 { a with lastA := .unknown, mutd := true, tmp := .live, hOpen := true, dat := .empty, chm := false } r' fs' cf := by
+    (hI : Inv S H c fs0 a r fs cf) (h0 : a.tmp = .none) (hd : doOp c (.mkstemp .parent) r fs = .ok (r', fs')) :
+    Inv S H c fs0 { a with lastA := .unknown, mutd := true, tmp := .live, hOpen := true, dat := .empty, chm := false } r' fs' cf := by
   simp only [doOp, locPath] at hd
   split at hd
   · split at hd
@@ -233,9 +233,9 @@ theorem inv_mkstemp {a : Abs} {r r' : Regs} {fs fs' : Fs} {cf : Bool} (hc : Call
   · cases hd
 
 theorem inv_fchmod {a : Abs} {r r' : Regs} {fs fs' : Fs} {cf : Bool} (hc : CallOK c fs0)
-    (hI : Inv H c fs0 a r fs cf) (h1 : a.hOpen = true) (h2 : a.tmp = .live) (h3 : a.modeK = .saved)
+    (hI : Inv S H c fs0 a r fs cf) (h1 : a.hOpen = true) (h2 : a.tmp = .live) (h3 : a.modeK = .saved)
     (hd : doOp c .fchmod r fs = .ok (r', fs')) :
-    Inv H c fs0 { a with lastA := .unknown, mutd := true, chm := true } r' fs' cf := by
+    Inv S H c fs0 { a with lastA := .unknown, mutd := true, chm := true } r' fs' cf := by
   have hp := hI.hp
   simp only [h1, if_true] at hp
   obtain ⟨d, m, sy, hx, hsy, hfl, hem, hch⟩ := hI.tlive h2
@@ -255,9 +255,9 @@ theorem inv_fchmod {a : Abs} {r r' : Regs} {fs fs' : Fs} {cf : Bool} (hc : CallO
   all_goals (first | assumption | simp_all)
 
 theorem inv_write {a : Abs} {r r' : Regs} {fs fs' : Fs} {cf : Bool}
-    (hI : Inv H c fs0 a r fs cf) (h1 : a.hOpen = true) (h2 : a.tmp = .live) (h3 : a.dat = .empty)
+    (hI : Inv S H c fs0 a r fs cf) (h1 : a.hOpen = true) (h2 : a.tmp = .live) (h3 : a.dat = .empty)
     (hd : doOp c (.write .canonical) r fs = .ok (r', fs')) :
-    Inv H c fs0 { a with lastA := .unknown, mutd := true, dat := .buffered } r' fs' cf := by
+    Inv S H c fs0 { a with lastA := .unknown, mutd := true, dat := .buffered } r' fs' cf := by
   have hp := hI.hp
   simp only [h1, if_true] at hp
   have hb := hI.bufE (Or.inl h3)
@@ -273,9 +273,9 @@ theorem inv_write {a : Abs} {r r' : Regs} {fs fs' : Fs} {cf : Bool}
   all_goals (first | assumption | simp_all)
 
 theorem inv_flush {a : Abs} {r r' : Regs} {fs fs' : Fs} {cf : Bool} (hc : CallOK c fs0)
-    (hI : Inv H c fs0 a r fs cf) (h1 : a.hOpen = true) (h2 : a.tmp = .live)
+    (hI : Inv S H c fs0 a r fs cf) (h1 : a.hOpen = true) (h2 : a.tmp = .live)
     (hd : doOp c .flush r fs = .ok (r', fs')) :
-    Inv H c fs0 { a with lastA := .unknown, mutd := true, dat := a.dat.afterFlush } r' fs' cf := by
+    Inv S H c fs0 { a with lastA := .unknown, mutd := true, dat := a.dat.afterFlush } r' fs' cf := by
   have hp := hI.hp
   simp only [h1, if_true] at hp
   obtain ⟨d, m, sy, hx, hsy, hfl, hem, hch⟩ := hI.tlive h2
@@ -315,9 +315,9 @@ theorem inv_flush {a : Abs} {r r' : Regs} {fs fs' : Fs} {cf : Bool} (hc : CallOK
     all_goals (first | assumption | simp_all)
 
 theorem inv_fsync {a : Abs} {r r' : Regs} {fs fs' : Fs} {cf : Bool} (hc : CallOK c fs0)
-    (hI : Inv H c fs0 a r fs cf) (h1 : a.hOpen = true) (h2 : a.tmp = .live)
+    (hI : Inv S H c fs0 a r fs cf) (h1 : a.hOpen = true) (h2 : a.tmp = .live)
     (hd : doOp c .fsync r fs = .ok (r', fs')) :
-    Inv H c fs0 { a with lastA := .unknown, mutd := true, dat := a.dat.afterFsync } r' fs' cf := by
+    Inv S H c fs0 { a with lastA := .unknown, mutd := true, dat := a.dat.afterFsync } r' fs' cf := by
   have hp := hI.hp
   simp only [h1, if_true] at hp
   obtain ⟨d, m, sy, hx, hsy, hfl, hem, hch⟩ := hI.tlive h2
@@ -343,9 +343,9 @@ theorem inv_fsync {a : Abs} {r r' : Regs} {fs fs' : Fs} {cf : Bool} (hc : CallOK
   all_goals (first | assumption | simp_all)
 
 theorem inv_close {a : Abs} {r r' : Regs} {fs fs' : Fs} {cf : Bool} (hc : CallOK c fs0)
-    (hI : Inv H c fs0 a r fs cf) (h1 : a.hOpen = true) (h2 : a.tmp = .live)
+    (hI : Inv S H c fs0 a r fs cf) (h1 : a.hOpen = true) (h2 : a.tmp = .live)
     (hd : doOp c .close r fs = .ok (r', fs')) :
-    Inv H c fs0 { a with lastA := .unknown, mutd := true, hOpen := false, dat := a.dat.afterFlush } r' fs' cf := by
+    Inv S H c fs0 { a with lastA := .unknown, mutd := true, hOpen := false, dat := a.dat.afterFlush } r' fs' cf := by
   have hp := hI.hp
   simp only [h1, if_true] at hp
   obtain ⟨d, m, sy, hx, hsy, hfl, hem, hch⟩ := hI.tlive h2
@@ -389,9 +389,9 @@ theorem inv_close {a : Abs} {r r' : Regs} {fs fs' : Fs} {cf : Bool} (hc : CallOK
     all_goals (first | assumption | simp_all)
 
 theorem inv_unlink {a : Abs} {r r' : Regs} {fs fs' : Fs} {cf : Bool} (hc : CallOK c fs0)
-    (hI : Inv H c fs0 a r fs cf) (h2 : a.tmp = .live)
+    (hI : Inv S H c fs0 a r fs cf) (h2 : a.tmp = .live)
     (hd : doOp c (.unlink .temp) r fs = .ok (r', fs')) :
-    Inv H c fs0 { a with lastA := .unknown, mutd := true, tmp := .gone, hOpen := false } r' fs' cf := by
+    Inv S H c fs0 { a with lastA := .unknown, mutd := true, tmp := .gone, hOpen := false } r' fs' cf := by
   obtain ⟨d, m, sy, hx, hsy, hfl, hem, hch⟩ := hI.tlive h2
   have ht := hI.tsome (by simp [h2])
   simp only [doOp, locPath, ht, hx] at hd
@@ -407,14 +407,18 @@ theorem inv_unlink {a : Abs} {r r' : Regs} {fs fs' : Fs} {cf : Bool} (hc : CallO
   all_goals (first | assumption | simp_all)
 
 theorem inv_replace {a : Abs} {r r' : Regs} {fs fs' : Fs} {cf : Bool} (hc : CallOK c fs0)
-    (hI : Inv H c fs0 a r fs cf) (h2 : a.tmp = .live) (h3 : a.dat = .synced) (h1 : a.hOpen = false)
-    (h4 : a.chm = true ∨ a.modeK = .absent)
-    (h5 : c.baseHash.isSome = false ∨ a.cas = .verified ∨ a.cas = .absent)
+    (hI : Inv S H c fs0 a r fs cf) (h2 : a.tmp = .live)
+    (h3 : a.dat = .synced ∨ (S.atomic = false ∧ a.dat = .flushed)) (h1 : a.hOpen = false)
+    (h4 : S.atomic = false ∨ a.chm = true ∨ a.modeK = .absent)
+    (h5 : S.cas = false ∨ c.baseHash.isSome = false ∨ a.cas = .verified ∨ a.cas = .absent)
     (hd : doOp c (.replace .temp .target) r fs = .ok (r', fs')) :
-    Inv H c fs0 { a with lastA := .unknown, mutd := true, tmp := .installed } r' fs' cf := by
+    Inv S H c fs0 { a with lastA := .unknown, mutd := true, tmp := .installed } r' fs' cf := by
   obtain ⟨d, m, sy, hx, hsy, hfl, hem, hch⟩ := hI.tlive h2
-  obtain ⟨hd1, hd2⟩ := hsy h3
-  subst hd1 hd2
+  have hd1 : d = c.canon r.base := by
+    rcases h3 with h3 | ⟨_, h3⟩
+    · exact (hsy h3).1
+    · exact hfl h3
+  subst hd1
   have ht := hI.tsome (by simp [h2])
   have hp := hI.hp
   simp only [h1] at hp
@@ -430,9 +434,16 @@ theorem inv_replace {a : Abs} {r r' : Regs} {fs fs' : Fs} {cf : Bool} (hc : Call
       intro p h6 h7; simp only [Fs.set, h6, h7, if_false]; exact frame p h6 h7
     case inst =>
       intro _
-      refine ⟨m, by simp [Fs.set], ?_, ?_⟩
-      · intro d0 m0 sy0 h0
-        rcases h4 with h4 | h4
+      refine ⟨m, sy, by simp [Fs.set], ?_, ?_⟩
+      · intro hat
+        have hsyn : a.dat = .synced := by
+          rcases h3 with h3 | ⟨h3, _⟩
+          · exact h3
+          · rw [hat] at h3; cases h3
+        refine ⟨(hsy hsyn).2, ?_⟩
+        intro d0 m0 sy0 h0
+        rcases h4 with h4 | h4 | h4
+        · rw [hat] at h4; cases h4
         · obtain ⟨m', hm', hm0⟩ := modeS (chmK h4)
           have := hch h4
           rw [hm'] at this
@@ -440,8 +451,9 @@ theorem inv_replace {a : Abs} {r r' : Regs} {fs fs' : Fs} {cf : Bool} (hc : Call
           subst this
           exact hm0 d0 m0 sy0 h0
         · rw [modeA h4] at h0; cases h0
-      · intro hb
-        rcases h5 with h5 | h5 | h5
+      · intro hcas hb
+        rcases h5 with h5 | h5 | h5 | h5
+        · rw [hcas] at h5; cases h5
         · rw [h5] at hb; cases hb
         · obtain ⟨d1, m1, sy1, e1, _, e3⟩ := casV h5
           exact Or.inr ⟨d1, m1, sy1, e1, e3⟩
@@ -452,7 +464,7 @@ theorem inv_replace {a : Abs} {r r' : Regs} {fs fs' : Fs} {cf : Bool} (hc : Call
 
 /-! ### Failure of an op -/
 
-theorem step_fail_shape {hb : Bool} {a aOk aFail : Abs} {o : Op} (hs : a.step hb o = some (aOk, aFail)) :
+theorem step_fail_shape {hb : Bool} {a aOk aFail : Abs} {o : Op} (hs : a.step S hb o = some (aOk, aFail)) :
     aFail.tmp = a.tmp ∧ aFail.hOpen = a.hOpen ∧ (aFail.dat = a.dat ∨ aFail.dat = .dirty) ∧ aFail.chm = a.chm ∧
     aFail.modeK = a.modeK ∧
     (aFail.lastA = .unknown ∨ (aFail.lastA = .false_ ∧ ∃ l, o = .osPathExists l)) ∧
@@ -464,9 +476,9 @@ theorem step_fail_shape {hb : Bool} {a aOk aFail : Abs} {o : Op} (hs : a.step hb
     (try (obtain ⟨rfl, rfl⟩ := hs)) <;> simp [Op.isCleanup]
 
 theorem inv_fail {hb : Bool} {a aOk aFail : Abs} {o : Op} {r : Regs} {fs : Fs} {cf : Bool}
-    (hI : Inv H c fs0 a r fs cf) (hs : a.step hb o = some (aOk, aFail)) :
-    (∀ e, o.swallows = false → Inv H c fs0 aFail { r with exc := some e } fs (cf || o.isCleanup)) ∧
-    (o.swallows = true → Inv H c fs0 aFail (swallowRegs o r) fs (cf || o.isCleanup)) := by
+    (hI : Inv S H c fs0 a r fs cf) (hs : a.step S hb o = some (aOk, aFail)) :
+    (∀ e, o.swallows = false → Inv S H c fs0 aFail { r with exc := some e } fs (cf || o.isCleanup)) ∧
+    (o.swallows = true → Inv S H c fs0 aFail (swallowRegs o r) fs (cf || o.isCleanup)) := by
   obtain ⟨h1, h2, h3, h4, h5, h6, h7, h8, h9, h10⟩ := step_fail_shape hs
   constructor
   · intro e hsw
@@ -494,8 +506,8 @@ theorem inv_fail {hb : Bool} {a aOk aFail : Abs} {o : Op} {r : Regs} {fs : Fs} {
 /-! ### Success of an op -/
 
 theorem inv_ok (hc : CallOK c fs0) {a aOk aFail : Abs} {o : Op} {r r' : Regs} {fs fs' : Fs} {cf : Bool}
-    (hI : Inv H c fs0 a r fs cf) (hs : a.step c.baseHash.isSome o = some (aOk, aFail))
-    (hd : doOp c o r fs = .ok (r', fs')) : Inv H c fs0 aOk r' fs' cf := by
+    (hI : Inv S H c fs0 a r fs cf) (hs : a.step S c.baseHash.isSome o = some (aOk, aFail))
+    (hd : doOp c o r fs = .ok (r', fs')) : Inv S H c fs0 aOk r' fs' cf := by
   cases o with
   | validatePath =>
     simp only [Abs.step, Option.some.injEq, Prod.mk.injEq] at hs
@@ -673,7 +685,7 @@ theorem inv_ok (hc : CallOK c fs0) {a aOk aFail : Abs} {o : Op} {r r' : Regs} {f
     · rename_i h0
       simp only [Option.some.injEq, Prod.mk.injEq] at hs
       obtain ⟨rfl, rfl⟩ := hs
-      exact inv_replace hc hI h0.1 h0.2.1 h0.2.2.1 (by simpa using h0.2.2.2.1) h0.2.2.2.2 hd
+      exact inv_replace hc hI h0.1 h0.2.1 h0.2.2.1 (by simpa using h0.2.2.2.1) (by simpa using h0.2.2.2.2) hd
     · cases hs
   | openW l => simp [Abs.step] at hs
   | chmod l => simp [Abs.step] at hs
